@@ -24,6 +24,9 @@ import (
 	"github.com/nspcc-dev/neo-go/pkg/core"
 	"github.com/nspcc-dev/neo-go/pkg/core/interop/interopnames"
 	"github.com/nspcc-dev/neo-go/pkg/core/mpt"
+	"github.com/nspcc-dev/neo-go/pkg/core/native/nativenames"
+	"github.com/nspcc-dev/neo-go/pkg/core/native/noderoles"
+	"github.com/nspcc-dev/neo-go/pkg/crypto/keys"
 	"github.com/nspcc-dev/neo-go/pkg/core/state"
 	"github.com/nspcc-dev/neo-go/pkg/core/transaction"
 	"github.com/nspcc-dev/neo-go/pkg/io"
@@ -321,6 +324,21 @@ func runCase(o *hx.Out, f *hx.Flags, k int, t *tb) {
 		key := genKey(r, 0)
 		reads = append(reads, read{fmt.Sprintf("get %x", key), callScript(c.Hash, "get", key)})
 	}
+	roleHash := e.NativeHash(t, nativenames.Designation)
+	roles := []noderoles.Role{noderoles.StateValidator, noderoles.Oracle}
+	for _, role := range roles {
+		for _, idx := range []int{0, 1, 2, 3, 5, 8, 13, 21, 40} {
+			reads = append(reads, read{fmt.Sprintf("role %d %d", role, idx), callScript(roleHash, "getDesignatedByRole", int64(role), idx)})
+		}
+	}
+	var rolePubs []any
+	for i := 0; i < 3; i++ {
+		pk, err := keys.NewPrivateKeyFromBytes(append(make([]byte, 31), byte(i+1)))
+		if err != nil {
+			panic(err)
+		}
+		rolePubs = append(rolePubs, pk.PublicKey().Bytes())
+	}
 
 	recs := map[uint32]*heightRec{}
 	record := func() {
@@ -407,6 +425,14 @@ func runCase(o *hx.Out, f *hx.Flags, k int, t *tb) {
 			}
 			tx := e.PrepareInvocation(t, w.Bytes(), []neotest.Signer{e.Validator})
 			txs = append(txs, tx)
+		}
+		if r.Chance(1, 4) {
+			role := roles[r.Intn(len(roles))]
+			n := r.Range(1, 3)
+			w := io.NewBufBinWriter()
+			emit.AppCall(w.BinWriter, roleHash, "designateAsRole", callflag.All, int64(role), rolePubs[:n])
+			txs = append(txs, e.PrepareInvocation(t, w.Bytes(), []neotest.Signer{e.Committee}))
+			o.Count("op:designate")
 		}
 		e.AddNewBlock(t, txs...)
 		record()
